@@ -210,6 +210,157 @@ theorem init_spec (s : Machine) (hm : s.mem.WF) (hno : NoOverlap s.mem) (len : N
                   · simp only [hrsp]; rw [htopeq]; exact hfa.2.1
                   · simp only [hrsp]; rw [htopeq]; exact hfa.2.2.1
 
+/-! ## initialisation never crashes -/
+
+theorem allocStrings_np (pfx : String) (strs : List (List Byte)) : ∀ (m : Mem) (k : Nat),
+    allocStrings m pfx k strs ≠ .panic := by
+  induction strs with
+  | nil => intro m k; simp [allocStrings]
+  | cons str rest ih =>
+    intro m k
+    unfold allocStrings
+    cases ha : initAnywhere m (str ++ [0]) (some (pfx ++ toString k)) with
+    | err => simp
+    | panic => exact absurd ha (Ax.C10.anywhere_never_panics _ _ _ _)
+    | ok r =>
+      obtain ⟨a, m1⟩ := r
+      simp only
+      have := ih m1 (k + 1)
+      cases hr : allocStrings m1 pfx (k + 1) rest with
+      | err => simp
+      | panic => exact absurd hr this
+      | ok r2 => simp
+
+theorem stackAreaFrom_np (m : Mem) (len : Nat) (s0 : Nat) (h0 : 0 < s0) : initStackAreaFrom m len s0 h0 ≠ .panic := by
+  fun_induction initStackAreaFrom m len s0 h0 with
+  | case1 => simp
+  | case2 => simp
+  | case3 start _ hlt hp => exact absurd hp (Ax.C10.initArea_never_panics _ _ _ _)
+  | case4 start _ hlt he ih => exact ih
+
+/-- the frame writer cannot crash when the slots it walks over lie above address 8·(number of values) -/
+theorem writeLayout_np (vs : List Nat) : ∀ (m : Mem) (_ : m.WF) (_ : NoOverlap m) (top : Nat), 8 * vs.length ≤ top →
+    writeLayout m vs top ≠ .panic := by
+  induction vs with
+  | nil => intro m _ _ top _; simp [writeLayout]
+  | cons v vs ih =>
+    intro m hm hno top htop
+    unfold writeLayout
+    cases hw : memWriteN m 8 top v with
+    | err => simp
+    | panic =>
+      unfold memWriteN at hw
+      split at hw
+      · cases hw
+      · exact absurd hw (Ax.C08.write_never_panics m hm top _)
+    | ok m1 =>
+      simp only
+      have hge : ¬ top < 8 := by simp only [List.length_cons] at htop; omega
+      simp only [hge, if_false]
+      have hwb : memWriteBytes m top (leBytes 8 v) = .ok m1 := by
+        unfold memWriteN at hw; split at hw
+        · cases hw
+        · exact hw
+      obtain ⟨hwf1, hno1⟩ := Ax.C08.write_preserves m hm hno top _ m1 hwb
+      exact ih m1 hwf1 hno1 (top - 8) (by simp only [List.length_cons] at htop; omega)
+
+/-- **Stack initialisation never crashes**: for every prior layout satisfying the memory invariants, every argument and
+    environment list and every length whose total (length + frame) is below 2^63 — every size a host can allocate at
+    all — `init_stack_program_start` returns a result or an error. (Sizes above that are rejected as errors by the
+    allocation itself, which is outside the model; `length + frame ≥ 2^64` is an error by `checked_add`.) -/
+theorem init_never_panics (s : Machine) (hm : s.mem.WF) (hno : NoOverlap s.mem) (len : Nat) (argv envp : List (List Byte))
+    (hsz : len + ((argv.length + envp.length + 3) * 8 + 48) < 2 ^ 63) :
+    initStackProgramStart s len argv envp ≠ .panic := by
+  unfold initStackProgramStart
+  cases ha : allocStrings s.mem "arg" 0 argv with
+  | err => simp
+  | panic => exact absurd ha (allocStrings_np _ _ _ _)
+  | ok r1 =>
+    obtain ⟨aAddrs, m1⟩ := r1
+    simp only
+    obtain ⟨hwf1, hno1, hl1, _⟩ := allocStrings_spec s.mem hm hno "arg" 0 argv aAddrs m1 ha
+    cases he : allocStrings m1 "env" 0 envp with
+    | err => simp
+    | panic => exact absurd he (allocStrings_np _ _ _ _)
+    | ok r2 =>
+      obtain ⟨eAddrs, m2⟩ := r2
+      simp only
+      obtain ⟨hwf2, hno2, hl2, _⟩ := allocStrings_spec m1 hwf1 hno1 "env" 0 envp eAddrs m2 he
+      have hlay : ([argv.length] ++ aAddrs ++ [0] ++ eAddrs ++ [0]).length = argv.length + envp.length + 3 := by
+        simp [hl1, hl2]; omega
+      simp only [hlay]
+      cases hu : u64add len ((argv.length + envp.length + 3) * 8 + 48) with
+      | none => simp
+      | some total =>
+        simp only
+        have htot : total = len + ((argv.length + envp.length + 3) * 8 + 48) := by
+          unfold u64add at hu; split at hu <;> simp_all
+        cases hs : initStackArea m2 total with
+        | err => simp
+        | panic => exact absurd hs (stackAreaFrom_np _ _ _ _)
+        | ok r3 =>
+          obtain ⟨st, m3⟩ := r3
+          simp only
+          obtain ⟨hwf3, hno3⟩ := Ax.C10.stackArea_preserves m2 hwf2 hno2 total st m3 hs
+          obtain ⟨hst0, hstE, _⟩ := Ax.C10.stackAreaFrom_ok m2 total _ _ st m3 hs
+          have hst63 : st < 2 ^ 63 := by simp only [SEARCH_END] at hstE; omega
+          have hadd : u64add st total = some (st + total) := by
+            unfold u64add
+            have : st + total < U64 := by simp only [U64]; omega
+            simp [this]
+          simp only [hadd]
+          -- the frame writer: the highest slot is far above 8·n
+          have hmask := mask16 (st + total - 16) (by simp only [U64]; omega)
+          have hfit : 8 * ([argv.length] ++ aAddrs ++ [0] ++ eAddrs ++ [0]).reverse.length ≤
+              (if (argv.length + envp.length + 3) % 2 = 1
+                then ((BitVec.ofNat 64 (st + total - 16)) &&& ~~~(0xf#64)).toNat - 8
+                else ((BitVec.ofNat 64 (st + total - 16)) &&& ~~~(0xf#64)).toNat) := by
+            rw [hmask, List.length_reverse, hlay]
+            split <;> omega
+          cases hw : writeLayout m3 ([argv.length] ++ aAddrs ++ [0] ++ eAddrs ++ [0]).reverse
+              (if (argv.length + envp.length + 3) % 2 = 1
+                then ((BitVec.ofNat 64 (st + total - 16)) &&& ~~~(0xf#64)).toNat - 8
+                else ((BitVec.ofNat 64 (st + total - 16)) &&& ~~~(0xf#64)).toNat) with
+          | err => simp
+          | panic => exact absurd hw (writeLayout_np _ m3 hwf3 hno3 _ hfit)
+          | ok r4 =>
+            obtain ⟨top, m4⟩ := r4
+            simp only
+            obtain ⟨htop, _, _, _⟩ := writeLayout_spec m3 hwf3 hno3 _ _ top m4 hw
+            simp only [List.length_reverse, hlay] at htop
+            rw [hmask] at htop
+            have : top % 16 = 0 := by
+              split at htop <;> omega
+            simp [this]
+
+/-- `init_stack(length)` never crashes either (same bound on the length) -/
+theorem initStack_never_panics (s : Machine) (len : Nat) (hlen : len < 2 ^ 63) : initStack s len ≠ .panic := by
+  unfold initStack
+  cases hs : initStackArea s.mem len with
+  | err => simp
+  | panic => exact absurd hs (stackAreaFrom_np _ _ _ _)
+  | ok r =>
+    obtain ⟨st, m⟩ := r
+    simp only
+    obtain ⟨hst0, hstE, _⟩ := Ax.C10.stackAreaFrom_ok s.mem len _ _ st m hs
+    have hst63 : st < 2 ^ 63 := by simp only [SEARCH_END] at hstE; omega
+    have hadd : u64add st len = some (st + len) := by
+      unfold u64add
+      have : st + len < U64 := by simp only [U64]; omega
+      simp [this]
+    simp only [hadd]
+    have h8 : ¬ st + len < 8 := by omega
+    simp only [h8, if_false]
+    have hmask := mask16 (st + len - 8) (by simp only [U64]; omega)
+    have hadd2 : u64add ((BitVec.ofNat 64 (st + len - 8)) &&& ~~~(0xf#64)).toNat 8 =
+        some (((BitVec.ofNat 64 (st + len - 8)) &&& ~~~(0xf#64)).toNat + 8) := by
+      unfold u64add
+      rw [hmask]
+      have : st + len - 8 - (st + len - 8) % 16 + 8 < U64 := by simp only [U64]; omega
+      simp [this]
+    rw [hadd2]
+    simp
+
 /-! ## what POP sees -/
 
 /-- the bytes of the 8-byte slot at `a` are the little-endian bytes of `v` -/
